@@ -10,6 +10,7 @@ use std::fs::File;
 use std::io::{BufWriter, Write};
 
 mod c09;
+mod c16;
 
 /// SplitMix64: every random choice of a run derives from one state seeded by VERIF_SEED.
 pub struct Rng(pub u64);
@@ -188,7 +189,13 @@ pub fn eval(out: &mut Out, req: &str) -> String {
     let mut it = req.split('\t');
     let op = it.next().unwrap_or("");
     let args: Vec<&str> = it.collect();
-    let r = if op.starts_with("leb.") { c09::eval(out, op, &args) } else { None };
+    let r = if op.starts_with("leb.") {
+        c09::eval(out, op, &args)
+    } else if op.starts_with("pr.") {
+        c16::eval(out, op, &args)
+    } else {
+        None
+    };
     r.unwrap_or_else(|| "bad-op".to_string())
 }
 
@@ -231,6 +238,7 @@ fn main() {
     match prop {
         "replay" => {}
         "C09" => c09::run(&mut ctx),
+        "C16" => c16::run(&mut ctx),
         _ => {
             eprintln!("unknown property {prop}");
             std::process::exit(2);
